@@ -274,6 +274,8 @@ def check_group(ctx, wmo_sn, local_sn, root=None, tag=''):
                            'direct': want, 'model': det}, signature={'kind': 'row', 'why': omsg.split(' ')[0]})
         elif iobs != mobs:
             ctx.corr_breaks.append({'group': label, 'wmo_sn': wmo_sn, 'local_sn': local_sn, 'id': id_, 'impl': iobs, 'model': mobs})
+        elif r[1] == 'ok' and not r[7]:
+            ctx.corr_breaks.append({'group': label, 'id': id_, 'why': 'count-free expansion differs from the built tree'})
         elif r[1] == 'ok' and not r[4]:
             # the flat counting specification is defined exactly on rows satisfying rowOK
             if id_ not in bad_set:
@@ -424,6 +426,8 @@ def list_verdict(ids, impl, model, wellformed, d):
         cmsg = 'queue and structural originalIds differ'
     elif model['wc'] != counted_ok(ids):
         cmsg = 'WellCounted disagrees with the recursive counting check'
+    elif 'err' not in model and model['loose'] != model['flat']:
+        cmsg = 'count-free expansion differs from the flattened tree'
     elif model['wc'] and 'err' not in model and model['spec'] is not None and model['spec'] != model['flat']:
         cmsg = 'counting specification differs from the flattened tree'
     elif model['wc'] and 'err' not in model and model['spec'] is None and all(x < 300000 or x not in d for x in ids):
